@@ -1026,7 +1026,115 @@ fn gen_doc(rng: &mut Rng, stringly: bool) -> Doc {
     Doc::Obj(f)
 }
 
+/// a whole `Config` of one of the three flavours read from a JSON document that carries only
+/// some of its keys: nothing may be conjured (an absent `url(s)` / `connection(s)` / `pool` stays
+/// absent - `builder()` then decides on what the document named), every other omitted key takes
+/// its documented default
+fn partial_case(rng: &mut Rng) {
+    let fl = *rng.pick(&["redis", "cluster", "sentinel"]);
+    let u = rng.chance(45);
+    let c = rng.chance(30);
+    let pool = rng.chance(40).then(|| 1 + rng.below(30));
+    let flag = (fl != "redis" && rng.chance(40)).then(|| rng.chance(50));
+    let name = (fl == "sentinel" && rng.chance(40)).then(|| (*rng.pick(&["other", "mymaster", "m2"])).to_string());
+    println!(
+        "rdin serde partial {fl} {} {} {} {} {}",
+        u as u8,
+        c as u8,
+        pool.map(|p| p.to_string()).unwrap_or("-".into()),
+        flag.map(|b| (b as u8).to_string()).unwrap_or("-".into()),
+        name.clone().unwrap_or("-".into()),
+    );
+    let r = catch_unwind(AssertUnwindSafe(|| -> String {
+        let mut doc = serde_json::Map::new();
+        let url = "redis://127.0.0.1:7000".to_string();
+        let info = ConnectionInfo { addr: ConnectionAddr::Tcp("127.0.0.1".into(), 7001), redis: RedisConnectionInfo::default() };
+        let single = fl == "redis";
+        if u {
+            doc.insert(if single { "url" } else { "urls" }.into(), if single { serde_json::json!(url) } else { serde_json::json!([url]) });
+        }
+        if c {
+            let v = serde_json::to_value(&info).unwrap();
+            doc.insert(if single { "connection" } else { "connections" }.into(), if single { v } else { serde_json::Value::Array(vec![v]) });
+        }
+        if let Some(p) = pool {
+            doc.insert("pool".into(), serde_json::json!({ "max_size": p }));
+        }
+        if let Some(b) = flag {
+            if fl == "cluster" {
+                doc.insert("read_from_replicas".into(), serde_json::json!(b));
+            } else {
+                let st = if b { sentinel::SentinelServerType::Replica } else { sentinel::SentinelServerType::Master };
+                doc.insert("server_type".into(), serde_json::to_value(st).unwrap());
+            }
+        }
+        if let Some(n) = &name {
+            doc.insert("master_name".into(), serde_json::json!(n));
+        }
+        let doc = serde_json::Value::Object(doc);
+        let b = |x: bool| if x { "1" } else { "0" };
+        let show = |hu: bool, hc: bool, pl: Option<usize>, x1: String, x2: String, built: Result<(), bool>| {
+            let build = match built {
+                Err(true) => "both",
+                Err(false) => "err",
+                Ok(()) => match (hu, hc) {
+                    (true, false) => "urls",
+                    (false, true) => "conns",
+                    (false, false) => "default",
+                    (true, true) => "ok-with-both",
+                },
+            };
+            format!(
+                "rdout serde partial u={} c={} pool={} flag={x1} name={x2} build={build}",
+                b(hu),
+                b(hc),
+                pl.map(|p| p.to_string()).unwrap_or("-".into())
+            )
+        };
+        match fl {
+            "redis" => match serde_json::from_value::<deadpool_redis::Config>(doc) {
+                Err(_) => "rdout serde partial error".into(),
+                Ok(cfg) => {
+                    let built = match cfg.builder() {
+                        Ok(_) => Ok(()),
+                        Err(deadpool_redis::ConfigError::UrlAndConnectionSpecified) => Err(true),
+                        Err(_) => Err(false),
+                    };
+                    show(cfg.url.is_some(), cfg.connection.is_some(), cfg.pool.map(|p| p.max_size), "-".into(), "-".into(), built)
+                }
+            },
+            "cluster" => match serde_json::from_value::<cluster::Config>(doc) {
+                Err(_) => "rdout serde partial error".into(),
+                Ok(cfg) => {
+                    let built = match cfg.builder() {
+                        Ok(_) => Ok(()),
+                        Err(cluster::ConfigError::UrlAndConnectionSpecified) => Err(true),
+                        Err(_) => Err(false),
+                    };
+                    show(cfg.urls.is_some(), cfg.connections.is_some(), cfg.pool.map(|p| p.max_size), b(cfg.read_from_replicas).into(), "-".into(), built)
+                }
+            },
+            _ => match serde_json::from_value::<sentinel::Config>(doc) {
+                Err(_) => "rdout serde partial error".into(),
+                Ok(cfg) => {
+                    let built = match cfg.builder() {
+                        Ok(_) => Ok(()),
+                        Err(sentinel::ConfigError::UrlAndConnectionSpecified) => Err(true),
+                        Err(_) => Err(false),
+                    };
+                    let replica = matches!(cfg.server_type, sentinel::SentinelServerType::Replica);
+                    show(cfg.urls.is_some(), cfg.connections.is_some(), cfg.pool.map(|p| p.max_size), b(replica).into(), cfg.master_name.clone(), built)
+                }
+            },
+        }
+    }));
+    println!("{}", r.unwrap_or("rdout panic".into()));
+}
+
 fn serde_case(rng: &mut Rng) {
+    if rng.chance(12) {
+        return partial_case(rng);
+    }
     match rng.below(10) {
         0..=3 => {
             let pc = gen_pc(rng);
@@ -1165,17 +1273,25 @@ async fn recycle_history(rng: &mut Rng, srv: &resp::Server) -> usize {
     // response timeout that has to do that (the pool's recycle timeout is then far away)
     let via_manager = rng.chance(50);
     let url = format!("redis://127.0.0.1:{}", srv.port);
-    let pool = if via_manager {
-        let cc = deadpool_redis::redis::AsyncConnectionConfig::new().set_response_timeout(Duration::from_millis(400));
-        let mgr = deadpool_redis::Manager::from_config(url.as_str(), cc).unwrap();
-        deadpool_redis::Pool::builder(mgr).max_size(max).runtime(Runtime::Tokio1).build().unwrap()
-    } else {
-        deadpool_redis::Config::from_url(url).builder().unwrap().max_size(max).runtime(Runtime::Tokio1).build().unwrap()
-    };
     let tmo = deadpool_redis::Timeouts {
         wait: Some(Duration::ZERO),
         create: None,
         recycle: Some(if via_manager { Duration::from_secs(8) } else { Duration::from_millis(400) }),
+    };
+    // the same timeouts either travel with every call (`timeout_get`) or are configured on the
+    // pool through the builder's per-field setters and used by plain `get()`
+    let pool_level = rng.chance(50);
+    let pool = {
+        let b = if via_manager {
+            let cc = deadpool_redis::redis::AsyncConnectionConfig::new().set_response_timeout(Duration::from_millis(400));
+            let mgr = deadpool_redis::Manager::from_config(url.as_str(), cc).unwrap();
+            deadpool_redis::Pool::builder(mgr)
+        } else {
+            deadpool_redis::Config::from_url(url).builder().unwrap()
+        };
+        let b = b.max_size(max).runtime(Runtime::Tokio1);
+        let b = if pool_level { b.wait_timeout(tmo.wait).recycle_timeout(tmo.recycle) } else { b };
+        b.build().unwrap()
     };
     println!("rp cfg max={max}");
     println!("rpobs cfg ok");
@@ -1247,12 +1363,14 @@ async fn recycle_history(rng: &mut Rng, srv: &resp::Server) -> usize {
             // call, the connection's response timeout); a get() that is still not back long
             // after all of them could have fired has lost its timeout. Reported as the answer
             // `hang` (the model never gives it) and the process stops: the pool is wedged
-            let r = match tokio::time::timeout(Duration::from_secs(40), pool.timeout_get(&tmo)).await {
+            let r = match tokio::time::timeout(Duration::from_secs(40), async {
+                if pool_level { pool.get().await } else { pool.timeout_get(&tmo).await }
+            }).await {
                 Ok(r) => r,
                 Err(_) => {
                     hist.push(format!("get=hang[{}]", toks.join(",")));
                     show("res=hang pings=[] watched=-".into());
-                    println!("rpx get() did not return within 40 s although wait = 0 and a recycle timeout of {:?} was given with the call", tmo.recycle);
+                    println!("rpx get() did not return within 40 s although wait = 0 and a recycle timeout of {:?} was {}", tmo.recycle, if pool_level { "configured on the pool (PoolBuilder::wait_timeout / recycle_timeout)" } else { "given with the call" });
                     println!("rpx history {}", hist.join("; "));
                     use std::io::Write;
                     let _ = std::io::stdout().flush();
